@@ -385,7 +385,13 @@ def strategy(max_ops):
     )
     prefix = st.lists(ov, min_size=0, max_size=2)
     body = st.lists(op, min_size=6, max_size=max_ops)
-    return st.tuples(st.booleans(), st.tuples(prefix, gen.map(lambda g: [g]), body).map(lambda t: t[0] + t[1] + t[2]))
+    overlays_first = st.tuples(prefix, gen.map(lambda g: [g]), body).map(lambda t: t[0] + t[1] + t[2])
+    # generators created and started while nothing is installed, overlays only afterwards
+    started = st.lists(st.tuples(gen, st.integers(0, 2)), min_size=1, max_size=2).map(
+        lambda gs: [g for g, _ in gs] + [("next", i) for i, (_, k) in enumerate(gs) for _ in range(1 if k else 0)]
+        + [("next", i) for i in range(len(gs))])
+    gens_first = st.tuples(started, st.lists(ov, min_size=1, max_size=2), body).map(lambda t: t[0] + t[1] + t[2])
+    return st.tuples(st.booleans(), st.one_of(overlays_first, overlays_first, gens_first))
 
 
 def plan(tier, seed, scale):
